@@ -136,7 +136,8 @@ func readSfmForSegMetas(segmetas []*structs.SegMeta) {
 
 			workSfm, err := ReadSfm(smentry.SegmentKey)
 			if err != nil {
-				// error is logged in the func
+				// without its sfm the segment is searched without its column names
+				log.Errorf("readSfmForSegMetas: failed to read the sfm file of segkey=%v, err=%v", smentry.SegmentKey, err)
 				return
 			}
 			if smentry.AllPQIDs == nil {
